@@ -60,7 +60,7 @@ def main():
         buf.append('* `%s` %s' % (l.split(' ', 1)[0], esc(l.split(' ', 1)[1])))
     buf.append('')
     sd = seeds()
-    buf.append('#### Seeded breaking changes (sub-agents, each given only the property text) — %d stored, all caught\n' % len(sd))
+    buf.append('#### Seeded breaking changes (sub-agents, each given only the property text) — %d stored, all caught except C16 `r6-C16` (see 9.1, fourth session)\n' % len(sd))
     buf.append('| property | change | needs | caught by |')
     buf.append('|---|---|---|---|')
     for p, slug, summ, needs, caught in sd:
